@@ -154,6 +154,7 @@ theorem applyRes_queue (cfg : Cfg) (pol : Policy) (step : Nat) (tickEv : Ev) (dc
     simp only [applyRes]
     split
     · simp
+    · simp
     · split
       · split <;> simp
       · simp
